@@ -8,7 +8,7 @@ for k in (1, 2, 3):
     d = f"{src}/m{k}.diff"
     if not os.path.exists(d):
         continue
-    name = f"{pid}-m{k}"
+    name = f"{pid}-{os.environ.get('SEED_WAVE', '')}m{k}"
     dst = f"/verif/seeded/{name}"
     os.makedirs(dst, exist_ok=True)
     shutil.copy(d, f"{dst}/patch.diff")
